@@ -202,6 +202,9 @@ theorem updQuery_good (st : State) (n d : String) (p : Facts) (wf : GraphWF st) 
           have hw3 := wf_update st.tags n t
             { mkTag t.color d p with converters := t.converters, referencedBy := t.referencedBy, uncertain := st.allStreams }
             p.refs out wf ht rfl rfl hself hout
+          by_cases hcx : (!t.converters.isEmpty && (mkTag t.color d p).complex) = true
+          · rw [if_pos hcx]; exact ⟨wf, Or.inr rfl⟩
+          rw [if_neg hcx]
           dsimp only
           have h1 : ((t.refs.filter fun r => !p.refs.contains r).any fun r => !thas st.tags r) = false := by
             rw [List.any_eq_false]
